@@ -749,6 +749,11 @@ func (sc *specCtx) call(e *ast.CallExpr) Value {
 		}
 		x.usedFuncs["flatat_"] = true
 		return mInt(App("spec.flatat_", SInt, E, refs, offs, lens, v.C[1], k, sc.evalInt(arg(ai))))
+	case "visited":
+		// visited(m, k): the running range over map m has yielded key k
+		m := sc.eval(arg(0))
+		k := sc.evalInt(arg(1))
+		return mBool(Select(Select(sc.st.region("ghost.visited", SArr(SArr(SBool))), m.C[0]), k))
 	case "strslen", "strslenk":
 		// total length of the strings of a []string value (of its first k)
 		v := sc.eval(arg(0))
